@@ -201,7 +201,10 @@ var propFuncs = map[string][]string{
 	// the User-Agent the probe predicate sees over HTTP/2 is the one the client sent: the request's header map is built
 	// as upstream builds it
 	"C15": {`^\(\*http2\.serverConn\)\.(newWriterAndRequest|newWriterAndRequestNoBody|canonicalHeader)$`},
-	"C18": {`^\(\*?http2\.(writeResHeaders|writePushPromise|write100ContinueHeadersFrame)\)`, `^http2\.(encodeHeaders|encKV|splitHeaderBlock)$`, `^\(\*http2\.serverConn\)\.(HeaderEncoder|processSetting|writeHeaders|write100ContinueHeaders)$`, `^\(\*http2\.Framer\)\.(readMetaFrame|WriteHeaders|WriteContinuation|WritePushPromise)$`},
+	"C18": {`^\(\*?http2\.(writeResHeaders|writePushPromise|write100ContinueHeadersFrame)\)`, `^http2\.(encodeHeaders|encKV|splitHeaderBlock)$`, `^\(\*http2\.serverConn\)\.(HeaderEncoder|processSetting|writeHeaders|write100ContinueHeaders)$`, `^\(\*http2\.Framer\)\.(readMetaFrame|WriteHeaders|WriteContinuation|WritePushPromise)$`,
+		// the client side's use of the one encoder per connection: what is encoded is written (a block encoded and then dropped
+		// leaves the peer's table behind)
+		`^\(\*http2\.clientStream\)\.(encodeAndWriteHeaders|writeRequest)$`, `^\(\*http2\.ClientConn\)\.(encodeHeaders|encodeTrailers|writeHeaders|writeHeader)$`},
 	"C10": {`^http2\.(getDataBufferChunk|putDataBufferChunk)$`, `^\(\*http2\.dataBuffer\)`, `^http2\.(parse|read)`, `^\(\*http2\.Framer\)\.(ReadFrame|readMetaFrame|checkFrameOrder|maxHeaderStringLen|maxHeaderListSize)`, `^\(\*http2\.serverConn\)\.(readFrames|writeFrameAsync|serve|notePanic|runHandler|sendServeMsg|readPreface|processFrameFromReader|setConnState|onSettingsTimer|onIdleTimer|onReadIdleTimer|onShutdownTimer|handlePingTimer)$`,
 		`^\(\*http2\.Server\)\.(ServeConn|serveConn)$`, `^\(\*http2\.stream\)\.(onReadTimeout|onWriteTimeout)$`, `\)\.(writeFrame|staysWithinBuffer|writeHeaderBlock)$`, `^\(\*http2\.(SettingsFrame|MetaHeadersFrame|HeadersFrame|DataFrame|FrameHeader)\)`, `^http2\.(splitHeaderBlock|terminalReadFrameError|isClosedConnError)`},
 	"C11": {`^\(\*http2\.serverConn\)\.(serve|readFrames|writeFrameAsync|closeAllStreamsOnConnClose|stopShutdownTimer|closeStream|onSettingsTimer|onIdleTimer|onReadIdleTimer|onShutdownTimer|handlePingTimer|sendServeMsg|readPreface|startGracefulShutdown|startGracefulShutdownInternal|goAway|shutDownIn|scheduleFrameWrite|wroteFrame|processHeaders|newStream|runHandler|handlerDone|writeFrameFromHandler|writeDataFromHandler|writeHeaders|noteBodyReadFromHandler)$`,
